@@ -75,6 +75,8 @@ for mid,d,prop,st,fired,detail in res:
 print(json.dumps(stats))
 if '--write-expect' in args:
     exp = {}
+    if only and os.path.exists(here+'/mutants/expect.json'):
+        exp = json.load(open(here+'/mutants/expect.json'))  # a partial run updates its own entries only
     for (mid,d,prop,patch,_e),(mid2,d2,prop2,st,fired,detail) in zip(items,res):
         if st != 'ok': continue
         exp[mid] = {"class": d, "property": prop, "patch": os.path.relpath(patch, here), "fires": sorted(fired)}
